@@ -49,6 +49,14 @@ def main(tier, seed):
     case("typing: overhang letter changed", "Trace_Typing", tr, lambda t: t[0]["res"]["up"].__setitem__(0, 2), "C04:DigestAgreement")
     case("typing: twin target changed", "Trace_Typing", tr, lambda t: t[0]["twin"]["res"]["tgt"].__setitem__(0, 3), "C02:RotInv")
     case("typing: is_valid raised", "Trace_Typing", tr, lambda t: t[0]["res"].update(exc="KeyError"), "C17:IsValidTotal")
+    trp = exec_typing({"cls": {"generic": "module", "enz": {"name": "BsaI"}}, "seq": s, "plain": "absent", "twin": {"by": "rot", "k": 4}})
+    case("typing: plain-container twin overhang", "Trace_Typing", trp, lambda t: t[0]["twin"]["res"]["up"].__setitem__(0, 2), "C02:RotInv")
+    from .typing_drv import exec_characterize
+    sp = G.module("CCCT", "ACGTAC", "AACG", "TTAA", rng)
+    trc = exec_characterize({"fn": "characterize", "base": {"kit": "ytk", "name": "YTKPart"}, "seq": sp, "twin": {"by": "case", "mask": "01"}})
+    case("characterize: twin gets another type", "Trace_Typing", trc, lambda t: t[0]["twin"]["res"].update(cls="YTKPart2"), "C18:CaseInvCharacterize")
+    case("characterize: refusal although a type accepts", "Trace_Typing", trc, lambda t: t[0]["res"].update(cls="", exc="RuntimeError", valid=False),
+         "C05:CharacterizeFailsIffNoCandidate")
     # --- Trace_Record
     from . import record_drv as rd
     rec = rd.random_record(random.Random(5), n=9, nfeat=2)
@@ -56,6 +64,9 @@ def main(tier, seed):
     case("record: rotated sequence letter", "Trace_Record", tr, lambda t: t[0]["post"]["seq"].__setitem__(0, (t[0]["post"]["seq"][0] % 4) + 1), "C13:SequenceRotated")
     case("record: reverse complement not circular", "Trace_Record", tr, lambda t: t[1]["post"].update(circular=False), "C14:StaysCircular")
     case("record: membership answer flipped", "Trace_Record", tr, lambda t: t[2].update(res=not t[2]["res"]), "C15:ContainsIsCircular")
+    tr2 = rd.chain(rec, [("SLS", None, 3, -1), ("RPEEK", "R", 2, False), ("EDIT", "id", 0), ("RPEEK", "R", 11, False)])
+    case("record: backwards slice letter", "Trace_Record", tr2, lambda t: t[0]["res"]["seq"].__setitem__(0, (t[0]["res"]["seq"][0] % 4) + 1), "C15:SliceIsLinearString")
+    case("record: stale identifiers after an edit", "Trace_Record", tr2, lambda t: t[2]["post"].update(meta=t[1]["post"]["meta"]), "C13:MetaCarried")
     # --- Trace_Assembly
     from .asm_drv import exec_assembly
     c = G.case(random.Random(3), 2)
